@@ -6,6 +6,7 @@ import (
 	"go/token"
 	"go/types"
 	"math"
+	"strconv"
 	"strings"
 	"unicode/utf8"
 
@@ -603,7 +604,7 @@ func (m *Machine) exec(fr *Frame, ins ssa.Instruction) {
 		if n < 0 || c < n {
 			m.goPanic("runtime error: makeslice: len out of range")
 		}
-		if c > 1<<16 {
+		if c > m.allocLimit() {
 			m.goPanic("engine: makeslice larger than 65536 elements (allocation assertion)")
 		}
 		et := x.Type().Underlying().(*types.Slice).Elem()
@@ -1766,3 +1767,14 @@ func (m *Machine) initPackage(pkg *ssa.Package) {
 }
 
 var _ = math.Floor
+
+// allocLimit bounds the capacity of one make([]T, n) (//zz:opt alloc=N, default 65536): a larger request is
+// reported as a panic (an allocation assertion) rather than silently exhausting the interpreter's memory.
+func (m *Machine) allocLimit() int64 {
+	if s, ok := m.cfg.Opts["alloc"]; ok {
+		if n, err := strconv.ParseInt(s, 10, 64); err == nil && n > 0 {
+			return n
+		}
+	}
+	return 1 << 16
+}
